@@ -513,6 +513,56 @@ theorem Inv.step {ms ms' : MState} {o : MOp} (hi : Inv ms) (hr : o.isReset = fal
     intro k y hk
     have := hi.ord k y hk
     exact ⟨this.1, this.2.1, by show y.consumed ≤ ms.sh.appended + 1; omega⟩
+  | wSet g n =>
+    simp only [mstep] at h
+    split at h
+    · rename_i x m hx hm
+      split at h
+      · cases h
+      · rename_i hfree
+        split at h
+        · rename_i hwin
+          cases h
+          simp only [Bool.or_eq_true, not_or, Bool.not_eq_true] at hfree
+          obtain ⟨⟨hfc, hfa⟩, _⟩ := hfree
+          have hox := hi.ord g x hx
+          refine ⟨hi.qlo, hi.qle, ?_, ?_, hi.excl, (hi.ci.setGrp_other g _ hfc).mono rfl (Int.le_refl _),
+            (hi.ai.setGrp_other g _ hfa).mono rfl, ?_, ?_, hi.ri⟩
+          · intro k y hk
+            by_cases hkg : k = g
+            · subst hkg
+              simp only [Sh.setPg, Sh.setGrp, if_true] at hk
+              cases hk
+              exact ⟨hox.1, hwin.1, hwin.2⟩
+            · simp only [Sh.setPg, Sh.setGrp, hkg, if_false] at hk
+              exact hi.ord k y hk
+          · intro k y hk
+            by_cases hkg : k = g
+            · subst hkg; exact hi.nm k x hx
+            · simp only [Sh.setPg, Sh.setGrp, hkg, if_false] at hk
+              exact hi.nm k y hk
+          · refine hi.si.mono (Int.le_refl _) ?_
+            intro k y hk
+            by_cases hkg : k = g
+            · subst hkg
+              simp only [Sh.setPg, Sh.setGrp, if_true] at hk
+              cases hk
+              exact ⟨x, hx, Int.le_refl _⟩
+            · simp only [Sh.setPg, Sh.setGrp, hkg, if_false] at hk
+              exact ⟨y, hk, Int.le_refl _⟩
+          · intro k y hk
+            by_cases hkg : k = g
+            · subst hkg
+              simp only [Sh.setPg, Sh.setGrp, if_true] at hk
+              cases hk
+              obtain ⟨m', hm', h1, h2⟩ := hi.wt k x hx
+              rw [hm] at hm'; cases hm'
+              exact ⟨{ m with consumed := n }, by simp [Sh.setPg], fun _ => rfl, h2⟩
+            · simp only [Sh.setPg, Sh.setGrp, hkg, if_false] at hk
+              obtain ⟨m', hm', h1, h2⟩ := hi.wt k y hk
+              exact ⟨m', by simp [Sh.setPg, Sh.setGrp, hkg, hm'], h1, h2⟩
+        · cases h
+    · cases h
 
 /-- ... hence by every enabled reset-free schedule -/
 theorem Inv.run : ∀ (ops : List MOp) (ms ms' : MState), Inv ms → (∀ o ∈ ops, o.isReset = false) →
@@ -533,8 +583,25 @@ theorem consumed_step (sp : Shape) {ms ms' : MState} {o : MOp} (hr : o.isReset =
     (h : mstep sp ms o = some ms') (k : Nat) :
     (ms'.sh.grp k).map (·.consumed) = (ms.sh.grp k).map (·.consumed) ∨
     (o = .cStore ∧ ∃ hh app x, ms.c = .read k hh app ∧ ms.sh.grp k = some x ∧ hh ≤ app ∧
-      ms'.sh.grp k = some { x with consumed := hh } ∧ ms'.c = .stored k hh) := by
+      ms'.sh.grp k = some { x with consumed := hh } ∧ ms'.c = .stored k hh) ∨
+    (∃ n x, o = .wSet k n ∧ ms.sh.grp k = some x ∧ x.ack ≤ n ∧ n ≤ ms.sh.appended ∧
+      ms'.sh.grp k = some { x with consumed := n }) := by
   cases o with
+  | wSet g n =>
+    simp only [mstep] at h
+    split at h
+    · rename_i x m hx hm
+      split at h
+      · cases h
+      · split at h
+        · rename_i hwin
+          cases h
+          by_cases hkg : k = g
+          · subst hkg
+            exact Or.inr (Or.inr ⟨n, x, rfl, hx, hwin.1, hwin.2, by simp [Sh.setPg, Sh.setGrp]⟩)
+          · left; simp [Sh.setPg, Sh.setGrp, hkg]
+        · cases h
+    · cases h
   | rQueue n => cases hr
   | rSeq1 g => cases hr
   | rSeq2 => cases hr
@@ -550,7 +617,7 @@ theorem consumed_step (sp : Shape) {ms ms' : MState} {o : MOp} (hr : o.isReset =
           cases h
           by_cases hkg : k = g
           · subst hkg
-            exact Or.inr ⟨rfl, hh, app, x, hc, hx, hle, by simp [Sh.setGrp], rfl⟩
+            exact Or.inr (Or.inl ⟨rfl, hh, app, x, hc, hx, hle, by simp [Sh.setGrp], rfl⟩)
           · left; simp [Sh.setGrp, hkg]
         · cases h; left; rfl
       · cases h
@@ -637,11 +704,142 @@ theorem consumed_step (sp : Shape) {ms ms' : MState} {o : MOp} (hr : o.isReset =
     · cases h
   | put => left; simp only [mstep] at h; cases h; rfl
 
+/-- acknowledged positions: only `aStore` writes one (reset-free alphabet, ANY lock shape, the rewinder
+included), and then to the `n` the acker tested against the `ts` / `hs` it loaded under the read lock -/
+theorem ack_step (sp : Shape) {ms ms' : MState} {o : MOp} (hr : o.isReset = false)
+    (h : mstep sp ms o = some ms') (k : Nat) :
+    (ms'.sh.grp k).map (·.ack) = (ms.sh.grp k).map (·.ack) ∨
+    (o = .aStore ∧ ∃ n ts hs x, ms.a = .read k n ts hs ∧ ms.sh.grp k = some x ∧ ts ≤ n ∧ n ≤ hs ∧
+      ms'.sh.grp k = some { x with ack := n }) := by
+  cases o with
+  | rQueue n => cases hr
+  | rSeq1 g => cases hr
+  | rSeq2 => cases hr
+  | rUnlock => cases hr
+  | aStore =>
+    simp only [mstep] at h
+    split at h
+    · rename_i g n ts hs ha
+      split at h
+      · rename_i x hx
+        split at h
+        · rename_i hwin
+          cases h
+          by_cases hkg : k = g
+          · subst hkg
+            exact Or.inr ⟨rfl, n, ts, hs, x, ha, hx, hwin.1, hwin.2, by simp [Sh.setGrp]⟩
+          · left; simp [Sh.setGrp, hkg]
+        · cases h; left; rfl
+      · cases h
+    · cases h
+  | cStore =>
+    left
+    simp only [mstep] at h
+    split at h
+    · rename_i g hh app hc
+      split at h
+      · rename_i x hx
+        split at h
+        · cases h
+          by_cases hkg : k = g
+          · subst hkg; simp [Sh.setGrp, hx]
+          · simp [Sh.setGrp, hkg]
+        · cases h; rfl
+      · cases h
+    · cases h
+  | wSet g n =>
+    left
+    simp only [mstep] at h
+    split at h
+    · rename_i x m hx hm
+      split at h
+      · cases h
+      · split at h
+        · cases h
+          by_cases hkg : k = g
+          · subst hkg; simp [Sh.setPg, Sh.setGrp, hx]
+          · simp [Sh.setPg, Sh.setGrp, hkg]
+        · cases h
+    · cases h
+  | cLoad g => left; simp only [mstep] at h; split at h <;> cases h; rfl
+  | cWake =>
+    left; simp only [mstep] at h
+    split at h
+    · split at h
+      · split at h
+        · cases h; rfl
+        · split at h <;> cases h; rfl
+      · cases h
+    · cases h
+  | cLock =>
+    left; simp only [mstep] at h
+    split at h
+    · split at h
+      · split at h <;> cases h; rfl
+      · cases h
+    · cases h
+  | cPut =>
+    left; simp only [mstep] at h
+    split at h
+    · split at h <;> cases h; rfl
+    · cases h
+  | aLock g n =>
+    left; simp only [mstep] at h
+    split at h
+    · split at h <;> cases h; rfl
+    · cases h
+  | aLoadC =>
+    left; simp only [mstep] at h
+    split at h
+    · split at h <;> cases h; rfl
+    · cases h
+  | aPut1 =>
+    left; simp only [mstep] at h
+    split at h
+    · split at h <;> cases h; rfl
+    · cases h
+  | aPut2 =>
+    left; simp only [mstep] at h
+    split at h
+    · split at h <;> cases h; rfl
+    · cases h
+  | sLock =>
+    left; simp only [mstep] at h
+    split at h
+    · split at h <;> cases h <;> rfl
+    · cases h
+  | sVisit g =>
+    left; simp only [mstep] at h
+    split at h
+    · split at h
+      · split at h <;> cases h; rfl
+      · cases h
+    · cases h
+  | sSet =>
+    left; simp only [mstep] at h
+    split at h
+    · split at h
+      · cases h
+        show (Sh.grp (if _ then _ else _) k).map _ = _
+        split
+        · unfold Sh.setAck; split <;> rfl
+        · rfl
+      · cases h
+    · cases h
+  | put => left; simp only [mstep] at h; cases h; rfl
+
 /-- the queue ack: only `sSet` moves it, and only upwards (reset-free alphabet, any lock shape) -/
 theorem qack_step (sp : Shape) {ms ms' : MState} {o : MOp} (hr : o.isReset = false)
     (h : mstep sp ms o = some ms') :
     ms'.sh.qack = ms.sh.qack ∨ (o = .sSet ∧ ms.sh.qack < ms'.sh.qack ∧ ms'.y = .idle) := by
   cases o with
+  | wSet g n =>
+    left; simp only [mstep] at h
+    split at h
+    · split at h
+      · cases h
+      · split at h <;> cases h; rfl
+    · cases h
   | rQueue n => cases hr
   | rSeq1 g => cases hr
   | rSeq2 => cases hr
